@@ -55,6 +55,8 @@
 static long (*real_syscall)(long, ...);
 static int trace_fd = -1;
 static long fail_at = 0, fail_at2 = 0, kill_at = 0;
+static long plant_at = 0;               /* before counted call k ANOTHER PROCESS creates FSSHIM_PLANT_PATH (played by the shim) */
+static const char *plant_path = NULL;
 static int fail_errno = EIO, fail_errno2 = EIO, kill_after = 0, sim_ficlone = 0;
 static __thread int cur_errno = EIO;   /* errno of the failure being injected into the current call */
 static char scope[MAXPATH];
@@ -80,6 +82,8 @@ static void init(void) {
     if ((e = getenv("FSSHIM_FAIL_AT2"))) fail_at2 = atol(e);
     if ((e = getenv("FSSHIM_ERRNO2"))) fail_errno2 = atoi(e);
     if ((e = getenv("FSSHIM_KILL_AT"))) kill_at = atol(e);
+    if ((e = getenv("FSSHIM_PLANT_AT"))) plant_at = atol(e);
+    if ((e = getenv("FSSHIM_PLANT_PATH"))) plant_path = e;
     if ((e = getenv("FSSHIM_KILL_WHEN"))) kill_after = (strcmp(e, "after") == 0);
     if ((e = getenv("FSSHIM_SIM_FICLONE"))) sim_ficlone = atoi(e);
     if ((e = getenv("FSSHIM_SCOPE"))) {
@@ -209,6 +213,14 @@ static void rec_emit(struct rec *r, const char *name, long ret, int err, const c
 }
 /* called after the arguments were formatted, before the real call */
 static void rec_before(struct rec *r, const char *name) {
+    if (r->n && plant_at && r->n == plant_at && plant_path) {
+        /* the intruder: creates the path (O_EXCL) just before this call runs */
+        long fd = real_syscall(SYS_openat, (long)AT_FDCWD, (long)plant_path, (long)(O_WRONLY | O_CREAT | O_EXCL), 0644L);
+        if (fd >= 0) {
+            real_syscall(SYS_write, fd, (long)"intruder\n", 9L);
+            real_syscall(SYS_close, fd);
+        }
+    }
     if (r->n && kill_at && r->n == kill_at && !kill_after) {
         rec_emit(r, name, 0, 0, "KB");
         die_now();
